@@ -29,6 +29,7 @@
 //	    client written in verif/universe (no repository resolution / override-client / vulnerability / sub-graph /
 //	    filter code), matched with IsAffected, filtered per the documented option semantics (ignore, explicit,
 //	    dev-only, CVSS threshold, max depth = some affected package within the depth)
+//	(C') every patch a result reports changes the manifest for a reason: its Fixed list is not empty
 //	(D) with the no-introduce option the applied patch reports no Introduced vulnerability (the documented meaning
 //	    of the option; together with (A) this means the re-analysis finds no new vulnerability)
 //
@@ -45,7 +46,7 @@
 //     "only consider these vulnerability IDs & ignore all others".
 //
 // Cause keys: <strategy>:fixed-still-present, :introduced-not-found, :unreported-new-vuln, :vuln-vanished,
-// :no-patch-but-requirements-changed, :fixed-marked-unactionable, :no-introduce-violated, :rewritten-manifest-unanalysable, :analysis-differs-from-reference, :hang,
+// :no-patch-but-requirements-changed, :fixed-marked-unactionable, :patch-fixes-nothing, :no-introduce-violated, :rewritten-manifest-unanalysable, :analysis-differs-from-reference, :hang,
 // :panic:<site>, explicit-list:introduced-vuln-not-filtered, pom:shared-property-collateral-change.
 package main
 
@@ -365,6 +366,12 @@ func checkConsistent(st, label string, res result.Result, out *tupleOut) {
 			fixedBy[v.ID] = true
 		}
 	}
+	for _, p := range res.Patches {
+		if len(p.PackageUpdates) > 0 && len(p.Fixed) == 0 {
+			out.add(st+":patch-fixes-nothing", "%s result: a patch is reported (and written) that lists no fixed vulnerability: %s", label, describePatches(res.Patches))
+			break
+		}
+	}
 	for _, v := range res.Vulnerabilities {
 		if fixedBy[v.ID] && v.Unactionable {
 			out.add(st+":fixed-marked-unactionable", "%s result: %s is listed as fixed by a patch of %s but marked unactionable", label, v.ID, describePatches(res.Patches))
@@ -415,7 +422,7 @@ const watchdog = 120 * time.Second
 var scratchRoot = "/dev/shm/verif-c12"
 
 func main() {
-	r := ev.Start("C12", "exploration", 4*time.Minute, 36*time.Minute)
+	r := ev.Start("C12", "exploration", 6*time.Minute, 36*time.Minute)
 	scratchRoot = fmt.Sprintf("%s-%d", scratchRoot, os.Getpid())
 	debug.SetGCPercent(400) // allocation-heavy XML/JSON parsing; memory is not the constraint
 	if f := os.Getenv("VERIF_REPLAY"); f != "" {
@@ -570,7 +577,7 @@ func main() {
 	r.Set("dont_care_cells_hit", dc)
 	r.Assume("the in-memory deps.dev LocalClient and the npm/Maven resolvers of deps.dev/util/resolve are the resolution semantics (the same ones the repository's own tests use)")
 	r.Assume("vulnerability matching uses the repository's IsAffected (decided separately by C18)")
-	rule := "For every tuple (universe, manifest, vulnerability set, upgrade config, option variant) of the bounded product below, npm/relax and Maven/override, MaxUpgrades=1: run 1 = FixVulns on the manifest file; run 2 = fresh FixVulns (fresh clients, same filter options, every upgrade level none) on the file run 1 wrote. (A) if run 1 applied one patch P: ids(run2 vulns) = ids(run1 vulns) - ids(P.Fixed) + ids(P.Introduced); (B) if run 1 applied no patch: the re-read requirement list equals the original; (C) in run 1 and in a run with MaxUpgrades=0 no vulnerability is both in the Fixed list of a reported patch and Unactionable; (D) with no-introduce P.Introduced is empty; (F) the ids listed by run 1 / run 2 equal the harness's independent reference analysis (deps.dev resolver + IsAffected + documented filters) of the original / written manifest; no panic, no tuple longer than 120 s. " +
+	rule := "For every tuple (universe, manifest, vulnerability set, upgrade config, option variant) of the bounded product below, npm/relax and Maven/override, MaxUpgrades=1: run 1 = FixVulns on the manifest file; run 2 = fresh FixVulns (fresh clients, same filter options, every upgrade level none) on the file run 1 wrote. (A) if run 1 applied one patch P: ids(run2 vulns) = ids(run1 vulns) - ids(P.Fixed) + ids(P.Introduced); (B) if run 1 applied no patch: the re-read requirement list equals the original; (C) in run 1 and in a run with MaxUpgrades=0 no vulnerability is both in the Fixed list of a reported patch and Unactionable; every reported patch lists at least one fixed vulnerability; (D) with no-introduce P.Introduced is empty; (F) the ids listed by run 1 / run 2 equal the harness's independent reference analysis (deps.dev resolver + IsAffected + documented filters) of the original / written manifest; no panic, no tuple longer than 120 s. " +
 		"Bound (" + r.Tier + ", Lite lists): " + b.Describe() + "; upgrade configs {major},{patch},{minor,first package:none},{major,last package:none} (the last package is the vulnerable transitive one in the chain shapes); shapes " + strings.Join(u.FixShapes, ", ") + " of verif/universe/gen.go, each the full product of its lists, times the option variants of universe.OptionVariants (default, ignore=[Vi], explicit=[Vi], dev-deps off with requirement i marked dev, requirement i marked dev with dev-deps on, max depth 1, max depth 2, min severity 5.0 with V1 low/V2 high and vice versa, no-introduce), enumerated simplest first."
 	os.RemoveAll(scratchRoot)
 	r.Finish(rule, exhaustive)
